@@ -732,6 +732,84 @@ static void bin()
     prog_bin<LN, LD, RN, RD>(st<LN>(), st<LD>(), st<RN>(), st<RD>());
 }
 // single fractions are cheap: finer lattices (thorough: every power of two)
+// ---- reduce / canonical / hash for component types outside the signed 8..64-bit families: unsigned and 128-bit ----
+template<class T>
+[[gnu::noinline]] void prog_canon(int step)
+{
+    using Fr = cnl::fraction<T, T>;
+    std::string name = "canon<" + vf::tn<T>() + ">";
+    if (!vf::begin(name, false)) return;
+    auto const Ls = vals::lattice<T>(step);
+    for (T n0 : Ls) {
+        if (!vf::my_row()) continue;
+        std::vector<std::pair<T, T>> cells;
+        for (T d0 : Ls) {
+            cells.emplace_back(n0, d0);
+            for (int g : {2, 3, 6, 10, 255, -1, -3}) {
+                Big gn = Big(n0) * Big(g), gd = Big(d0) * Big(g);
+                if (fitsT<T>(gn) && fitsT<T>(gd)) cells.emplace_back(gn.template to<T>(), gd.template to<T>());
+            }
+        }
+        std::sort(cells.begin(), cells.end());
+        cells.erase(std::unique(cells.begin(), cells.end()), cells.end());
+        for (auto const& cell : cells) {
+            const T n = cell.first, d = cell.second;
+            auto id = [&] { return vf::to_s(n) + "/" + vf::to_s(d); };
+            if (vf::replaying() && !vf::case_selected(id())) continue;
+            const Big Nb(n), Db(d);
+            if (d == 0 || (vals::is_signed_v<T> && (n == vals::min_v<T>() || d == vals::min_v<T>()))) {
+                vf::skip_pre();  // zero denominator; most negative component: outside the std::gcd contract
+                continue;
+            }
+            const Big G = Big::gcd(Nb, Db);
+            Big cn = Nb / G, cd = Db / G;
+            if (cd.neg) {
+                cn = -cn;
+                cd = -cd;
+            }
+            vf::counted(!Nb.is_zero() && !(Db == Big(1)));
+            auto same_value = [](Big const& rn, Big const& rd, Big const& en, Big const& ed) { return !rd.is_zero() && rn * ed == en * rd; };
+            auto judge = [&](const char* what, bool need_positive, auto&& f) {
+                Big Rn, Rd;
+                vf::Outcome o = vf::run([&] {
+                    auto r = f();
+                    Rn = Big(r.numerator);
+                    Rd = Big(r.denominator);
+                });
+                vf::validated();
+                std::string exp = cn.str() + "/" + cd.str();
+                if (!o.ok()) {
+                    vf::outcome(o.str());
+                    vf::violation(std::string(what) + "/" + vf::kind_name(o.kind), id(), std::string(what) + "(" + id() + "): " + o.str());
+                } else if (!same_value(Rn, Rd, Nb, Db))
+                    vf::violation(std::string(what) + "/value", id(), std::string(what) + "(" + id() + "): got " + Rn.str() + "/" + Rd.str() + ", expected " + exp);
+                else if (!(Big::gcd(Rn, Rd) == Big(1)))
+                    vf::violation(std::string(what) + "/not_lowest_terms", id(), std::string(what) + "(" + id() + "): got " + Rn.str() + "/" + Rd.str() + ", expected " + exp);
+                else if (need_positive && Rd.sign() <= 0)
+                    vf::violation(std::string(what) + "/denominator_not_positive", id(), std::string(what) + "(" + id() + "): got " + Rn.str() + "/" + Rd.str() + ", expected " + exp);
+                else
+                    vf::outcome(std::string("ok_") + what);
+            };
+            judge("reduce", false, [&] { return cnl::reduce(Fr{n, d}); });
+            judge("canonical", true, [&] { return cnl::canonical(Fr{n, d}); });
+            if (fitsT<T>(cn) && fitsT<T>(cd)) {
+                size_t h = 0, hr = 0;
+                T rn_ = cn.template to<T>(), rd_ = cd.template to<T>();
+                vf::Outcome o = vf::run([&] {
+                    h = std::hash<Fr>{}(Fr{n, d});
+                    hr = std::hash<Fr>{}(Fr{rn_, rd_});
+                });
+                vf::validated(2);
+                if (!o.ok()) vf::violation(std::string("hash/") + vf::kind_name(o.kind), id(), "std::hash(" + id() + "): " + o.str());
+                else if (h != hr)
+                    vf::violation("hash/equal_value_differs", id(), "std::hash(" + id() + ") differs from std::hash(" + cn.str() + "/" + cd.str() + ") for the same rational value");
+                else
+                    vf::outcome("ok_hash");
+            }
+        }
+    }
+}
+
 template<class T>
 constexpr int ss()
 {
@@ -775,6 +853,11 @@ static void g_wide_b()
     single<i64, i64>();
     single<i16, i64>();
     single<i64, i32>();
+    prog_canon<u8>(1);
+    prog_canon<u16>(VF_TIER ? 1 : 2);
+    prog_canon<u32>(VF_TIER ? 1 : 3);
+    prog_canon<u64>(VF_TIER ? 2 : 5);
+    prog_canon<i128>(VF_TIER ? 4 : 9);
 }
 VF_GROUP(g_wide_b);
 #endif
